@@ -166,6 +166,30 @@ Picked ==
              <<FuncDef("early", <<>>, <<>>, T_none, <<Pr(<<Num(2)>>), SAsg(EIdx(EVar("ga", TArr(T_num)), Num(0)), Num(7)), Pr(<<Num(3)>>)>>)>>, <<>>) EXCEPT !.fl = TRUE],
     [Program(<<SInfer("g", Num(1)), SCall(ECallU("early", NoSig, <<>>)), Pr(<<GV>>), SInfer("h", Num(1)), Pr(<<EVar("h", T_num)>>)>>,
              <<FuncDef("early", <<>>, <<>>, T_none, <<SAsg(GV, Num(7)), SIf(<<EBin(">", GV, Num(9))>>, <<<<SAsg(EVar("h", T_num), Num(8))>>>>, <<>>), Pr(<<Num(3)>>)>>)>>, <<>>) EXCEPT !.fl = TRUE],
+    \* a loop whose body calls the function that contains it (recursion from inside the loop, iterations left after
+    \* the call returns): every activation visits all its elements, for every kind of range
+    [Program(<<SCall(ECallU("walk", Sig(<<T_num>>, <<>>, T_none), <<Num(0)>>))>>,
+             <<FuncDef("walk", <<Param("d", T_num)>>, <<>>, T_none,
+                       <<SFor("e", "arr", <<EArr(<<Num(1), Num(2), Num(3)>>)>>,
+                              <<Pr(<<EVar("d", T_num), EVar("e", T_num)>>),
+                                SIf(<<EBin("<", EVar("d", T_num), Num(2))>>, <<<<SCall(ECallU("walk", Sig(<<T_num>>, <<>>, T_none), <<EBin("+", EVar("d", T_num), Num(1))>>))>>>>, <<>>)>>)>>)>>, <<>>) EXCEPT !.fl = TRUE],
+    [Program(<<SCall(ECallU("spell", Sig(<<T_str>>, <<>>, T_none), <<EStr(<<120, 228, 122>>)>>))>>,
+             <<FuncDef("spell", <<Param("w", T_str)>>, <<>>, T_none,
+                       <<SFor("c", "str", <<EVar("w", T_str)>>,
+                              <<Pr(<<EVar("w", T_str), EVar("c", T_str)>>),
+                                SIf(<<EBin(">", ECallB("len", <<EVar("w", T_str)>>), Num(1))>>, <<<<SCall(ECallU("spell", Sig(<<T_str>>, <<>>, T_none), <<ESlice(EVar("w", T_str), <<Num(1)>>, <<>>)>>))>>>>, <<>>)>>)>>)>>, <<>>) EXCEPT !.fl = TRUE],
+    [Program(<<SInfer("m", EMap(<<<<97>>, <<98>>, <<99>>>>, <<Num(1), Num(2), Num(3)>>)), SCall(ECallU("drain", Sig(<<T_num>>, <<>>, T_none), <<Num(0)>>)), Pr(<<EVar("m", TMap(T_num))>>)>>,
+             <<FuncDef("drain", <<Param("d", T_num)>>, <<>>, T_none,
+                       <<SFor("k", "map", <<EVar("m", TMap(T_num))>>,
+                              <<Pr(<<EVar("d", T_num), EVar("k", T_str)>>),
+                                SIf(<<EBin("<", EVar("d", T_num), Num(2))>>,
+                                    <<<<SIf(<<EBin("==", EVar("k", T_str), EStr(<<97>>))>>, <<<<SCall(ECallB("del", <<EVar("m", TMap(T_num)), EStr(<<98>>)>>))>>>>, <<>>),
+                                        SCall(ECallU("drain", Sig(<<T_num>>, <<>>, T_none), <<EBin("+", EVar("d", T_num), Num(1))>>))>>>>, <<>>)>>)>>)>>, <<>>) EXCEPT !.fl = TRUE],
+    [Program(<<SCall(ECallU("count", Sig(<<T_num>>, <<>>, T_none), <<Num(0)>>))>>,
+             <<FuncDef("count", <<Param("d", T_num)>>, <<>>, T_none,
+                       <<SFor("i", "num", <<Num(3)>>,
+                              <<Pr(<<EVar("d", T_num), EVar("i", T_num)>>),
+                                SIf(<<EBin("<", EVar("d", T_num), Num(2))>>, <<<<SCall(ECallU("count", Sig(<<T_num>>, <<>>, T_none), <<EBin("+", EVar("d", T_num), Num(1))>>))>>>>, <<>>)>>)>>)>>, <<>>) EXCEPT !.fl = TRUE],
     \* break leaves exactly the innermost loop
     Program(<<SFor("i", "num", <<Num(3)>>,
                  <<SFor("j", "num", <<Num(3)>>, <<SIf(<<EBin("==", EVar("j", T_num), Num(1))>>, <<<<SBrk>>>>, <<>>), Pr(<<IV, EVar("j", T_num)>>)>>),
